@@ -1069,7 +1069,9 @@ class FakeSeries(_S):
             return FakeSeries(self.arr, index, name=self.name)
         pos = [self.index.locate(lab) for lab in index.labels]
         if any(p is None for p in pos):
-            raise OutsideModel(f"reindex onto labels that are absent (would introduce NaN): {self.index.labels} -> {index.labels}")
+            # pandas: labels that are absent become NaN (the result is float64)
+            cells = [SF.of(float("nan")) if p is None else SF.of(self.arr.cells[p]) for p in pos]
+            return FakeSeries(A(cells, "float64"), LIndex(list(index.labels), index.name, index.categorical), name=self.name)
         return self._rows(pos)
 
 
@@ -1110,6 +1112,25 @@ def _agg_cells(arr, func):
         cells = [ite(_isnan(c), 0.0, c) if arr.dtype.kind == "f" else c for c in arr.cells]
         from .values import total
         return total(cells, 0)
+    if func in ("mean", "count"):
+        from .values import total
+        isn = [(_isnan(c) if arr.dtype.kind == "f" else False) for c in arr.cells]
+        cnt = total([ite(n, 0, 1) for n in isn], 0)
+        if func == "count":
+            return cnt
+        sm = total([ite(n, 0.0, c) for n, c in zip(isn, arr.cells)], 0.0)
+        return fdiv(sm, cnt)
+    if func in ("min", "max"):
+        # skipna: NaN cells are skipped, all-NaN (or empty) gives NaN
+        cells = [SF.of(c) for c in arr.cells]
+        if not cells:
+            return SF.of(float("nan"))
+        acc = cells[0]
+        for c in cells[1:]:
+            better = c.lt(acc) if func == "min" else acc.lt(c)
+            acc_new = SF(ite(b_and(acc.nan, c.nan), True, False), ite(acc.nan, c.v, ite(c.nan, acc.v, ite(better, c.v, acc.v))))
+            acc = acc_new
+        return acc
     raise OutsideModel(f"Series.agg({func!r}) on the labelled model")
 
 
